@@ -15,9 +15,14 @@ def main():
     ap.add_argument("--replay")
     a = ap.parse_args()
     seed = int(os.environ.get("VERIF_SEED", "0"))
-    from . import cext
-    cext.install()  # the native helper every check runs against is rebuilt from /repo/tensordict/csrc
-    mod = importlib.import_module("harness." + a.pid.lower())
+    try:
+        from . import cext
+        cext.install()  # the native helper every check runs against is rebuilt from /repo/tensordict/csrc
+        mod = importlib.import_module("harness." + a.pid.lower())
+    except Exception:
+        traceback.print_exc()
+        print(f"CHECK-ERROR property={a.pid}: the library under test or the harness module does not import (see traceback)")
+        sys.exit(2)
     if a.replay:
         body = json.load(open(a.replay))
         sys.exit(mod.replay(body))
